@@ -31,7 +31,7 @@ impl Property for C16 {
         "fault_enumeration"
     }
     fn rule(&self) -> &'static str {
-        "A case = generated stream (clean or noisy) x pipeline of any class x --on-error policy x output style x delivery knobs. Per case the check enumerates fault points: every input byte offset 0..=len as a failing read (all offsets when the stream is <= 400 bytes in quick tier, otherwise all piece boundaries plus a seeded sample; all offsets in thorough tier), every offset of the fault-free stdout as a failing write, every offset of the fault-free stderr likewise, each in a sticky or recovering world with seeded EINTR/short-transfer garnish before the fault; plus fault-free 'transparent' runs (EINTR/short only), Ok(0) writes and double faults; family 'sweep-read-file' does the same for 1..3 file arguments behind the opener seam (hook H2: every offset of every file, sampled above 200 bytes, plus a failing open; one file in six larger than jawk's 8 KiB BufReader; a single file may sit behind a nested directory argument), judged over all sources: no successful read and no further open anywhere after the failure. evaluations = fault points executed (one jawk run each, plus one reference run per case). A point is non-trivial iff the planned fault was actually delivered by the stub (or, for transparent runs, at least one EINTR/short transfer was delivered); distinct = distinct abstract traces (run-length-compressed sequence of seam event kinds and results + outcome class) among non-trivial points."
+        "A case = generated stream (clean or noisy) x pipeline of any class x --on-error policy x output style x delivery knobs. Per case the check enumerates fault points: every input byte offset 0..=len as a failing read (all offsets when the stream is <= 400 bytes in quick tier, otherwise all piece boundaries plus a seeded sample; all offsets in thorough tier), every offset of the fault-free stdout as a failing write, every offset of the fault-free stderr likewise, each in a sticky or recovering world with seeded EINTR/short-transfer garnish before the fault; plus fault-free 'transparent' runs (EINTR/short only), Ok(0) writes and double faults; family 'sweep-read-file' does the same for 1..3 file arguments behind the opener seam (hook H2: every offset of every file, sampled above 200 bytes, plus a failing open; one file in six larger than jawk's 8 KiB BufReader; a single file may sit behind a nested directory argument), judged over all sources: no successful read and no further open anywhere after the failure. evaluations = fault points executed (one jawk run each, plus one reference run per case). A point is non-trivial iff the planned fault was actually delivered by the stub (or, for transparent runs, at least one EINTR/short transfer was delivered); distinct = distinct abstract traces (run-length-compressed sequence of seam event kinds and results + outcome class) among non-trivial points. Round 7: one scenario in five holds values that almost are JSON (surrogate halves, short \\u escapes, non-UTF-8 strings, numbers and containers broken late); one sweep in thirty runs over a value nested 515..700 deep; one scenario in five names file arguments with multi-byte characters (long) or with a comma and a blank."
     }
     fn assumptions(&self) -> Vec<String> {
         vec![
